@@ -7,6 +7,9 @@ import Mouette.Lemmas.C04Ref
 import Mouette.Lemmas.C04MeditRef
 import Mouette.Generated.C04Dispatch
 import Mouette.Generated.C04Glue
+import Mouette.Generated.C04Wrap
+import Mouette.Model.IOStl
+import Mouette.Lemmas.C04SourceAttr
 import Mouette.Lemmas.C04Save
 /-!
 # C04 (round 4) — the theorems of `Props/C04.lean` transferred to what the SOURCE says now
@@ -291,6 +294,59 @@ theorem save_content_source (ig : Ignore) (m : Raw C) :
   simp only [C04G.saveContent, h]
   exact (Mouette.IO.Tables.applyIgnore_table ig m).symm
 
+/-! ### round 7: `geogram_ascii.py: import_attribute` read from the source -/
+
+/-- the body read from the source is the loop of `impStep` (the definition the lemmas are about) -/
+theorem import_attribute_bridge {V : Type} [DecidableEq V] (n : Nat) (data : List V) (attr : SAttr V) :
+    C04A.importAttribute n data attr = List.foldl (impStep n data) attr (List.range (data.length / n)) := rfl
+
+/-- whatever the DEFAULT value `d` of the (fresh, sparse) attribute and whatever the values: element `i` reads back as row `i` of the
+chunk.  In particular a value equal to 0 under a non-zero default (the adjacency `0` under the default NOT_AN_ID: blind change C04-i) and a
+value of tiny magnitude (C04-g) come back unchanged. -/
+theorem import_attribute_dense_source {V : Type} [DecidableEq V] (n : Nat) (hn : 0 < n) (data : List V) (d : V) (i : Nat)
+    (hi : i < data.length / n) :
+    (C04A.importAttribute n data { dflt := d }).get n i = rowOf n data i := by
+  rw [import_attribute_bridge]
+  exact (impFold_spec n hn data d (data.length / n) (Nat.le_refl _)).2.1 i hi
+
+/-- nothing is invented: an element beyond the chunk reads as the default -/
+theorem import_attribute_nothing_else_source {V : Type} [DecidableEq V] (n : Nat) (hn : 0 < n) (data : List V) (d : V) (i : Nat)
+    (hi : data.length / n ≤ i) :
+    (C04A.importAttribute n data { dflt := d }).get n i = List.replicate n d := by
+  rw [import_attribute_bridge]
+  have h := (impFold_spec n hn data d (data.length / n) (Nat.le_refl _))
+  simp [SAttr.get, h.2.2 i hi, h.1]
+
+/-- the dense read-out of the filled attribute is the data of the chunk (what the hand model `stepImport` keeps as `vals`), up to the
+incomplete last row that `len(data) // n_data` ignores -/
+theorem import_attribute_values_source {V : Type} [DecidableEq V] (n : Nat) (hn : 0 < n) (data : List V) (d : V) :
+    (List.range (data.length / n)).flatMap (fun i => (C04A.importAttribute n data { dflt := d }).get n i)
+      = data.take (n * (data.length / n)) := by
+  rw [← rows_concat n data (data.length / n) (Nat.mul_div_le _ _)]
+  apply flatMap_congr_mem
+  intro i hi
+  exact import_attribute_dense_source n hn data d i (List.mem_range.mp hi)
+
+/-! ### round 7: the thin wrappers `import_obj`, `import_off`, `import_tet`, `export_stl`, `import_stl` -/
+
+/-- each text importer hands the lines of the file to ITS parser (and to no other), so it is the modelled reader of the format -/
+theorem import_wrappers_source (cd : Codec C) (file : File) :
+    C04Wrap.importObj cd file = importObj cd file ∧ C04Wrap.importOff cd file = importOff cd file ∧
+    C04Wrap.importTet cd file = importTet cd file :=
+  ⟨parse_obj_bridge cd file, parse_off_bridge cd file, parse_tet_bridge cd file⟩
+
+/-- `export_stl` writes what a fresh `Binary_STL_Writer` writes: the modelled binary STL file -/
+theorem export_stl_wrapper_source (cd : Codec C) (m : Raw C) : C04Wrap.exportStl cd m = exportStl cd m := export_stl_bridge cd m
+
+/-- `import_stl` on a binary file: the vertices / faces returned by the external reader, as they are.  With the reader model of
+`Model/IOStl.lean` (points merged, numbered in first-appearance order) this is `importStlMerged`; an ASCII file goes to `_import_stl_ascii` -/
+theorem import_stl_wrapper_source [DecidableEq C] (cd : Codec C) (file : File) (a : Option (Raw C)) :
+    C04Wrap.importStl false a ((stlSoup cd file).map (fun ts => mergeTris ts [])) = importStlMerged cd file ∧
+    C04Wrap.importStl true a ((stlSoup cd file).map (fun ts => mergeTris ts [])) = a := by
+  refine ⟨?_, rfl⟩
+  unfold C04Wrap.importStl importStlMerged
+  cases stlSoup cd file <;> rfl
+
 /-! ### non-vacuity -/
 
 private def demo : Raw Unit :=
@@ -319,6 +375,10 @@ example : C04R.importMedit ucd (C04W.exportMedit ucd demo) = some (restrictMedit
     (C04R.importMedit ucd [[Tok.kw "End"], [Tok.kw "Triangles"], [Tok.int 5]]).map (·.faces) = some [] := by decide
 example : C04G.load (some demo) dim (some 1) false = some (.mesh (some "VolumeMesh") demo) ∧
     (C04G.saveContent (some { cells := true }) demo).cells = [] ∧ (C04G.saveContent (some { cells := true }) demo).faces = demo.faces := by decide
+example : (C04A.importAttribute 1 [0, 7, 5, 0] ({ dflt := 5 } : SAttr Nat)).rows = [(3, [0]), (1, [7]), (0, [0])] ∧
+    (C04A.importAttribute 1 [0, 7, 5, 0] ({ dflt := 5 } : SAttr Nat)).get 1 2 = [5] ∧
+    (C04A.importAttribute 2 [0, 0, 1, 2, 9] ({ dflt := 0 } : SAttr Nat)).get 2 0 = [0, 0] ∧
+    (C04A.importAttribute 2 [0, 0, 1, 2, 9] ({ dflt := 0 } : SAttr Nat)).get 2 2 = [0, 0] := by decide
 example : C04D.instantiate none (dim demo) = some "VolumeMesh" ∧ C04D.instantiate (some 2) 0 = some "SurfaceMesh" := by decide
 
 end Mouette.Props.C04Source
